@@ -1,6 +1,6 @@
 """Shared by C01 (pattern inversion) and C02 (payload delivery): case generation, harness I/O and the oracle
 for the notify operations of libsc running on the simulated MPI."""
-import os, json
+import os, json, re
 import vlib, mpitrace
 
 TYPES = ["allgather", "binary", "nary", "pex", "pcx", "rsx", "nbx", "ranges", "superset"]
@@ -159,13 +159,25 @@ def run_cases(ctx, cases, trace=False, cflags_extra=("-fno-sanitize=nonnull-attr
     v = ctx.variant(mpi="sim", san=True, cflags_extra=cflags_extra)
     exe = os.path.join(ctx.scratch, "c01_harness")
     if not os.path.exists(exe):
-        ctx.cc([os.path.join(vlib.TOOLS, "harness", "c01_harness.c"), os.path.join(vlib.TOOLS, "simmpi", "simmpi.c")], exe, v)
-    env = dict(os.environ, VERIF_SCRATCH=ctx.scratch, ASAN_OPTIONS="detect_leaks=0")
+        # the harness translation units (NOT libsc) are compiled with recoverable ASan reports: tools/simmpi's cleanup
+        # after a run that ended abnormally (the recorded back-to-back findings) sometimes touches a freed request in
+        # msg_free; such a report must not kill the harness and hide the remaining cases.  Reports are classified below.
+        ctx.cc([os.path.join(vlib.TOOLS, "harness", "c01_harness.c"), os.path.join(vlib.TOOLS, "simmpi", "simmpi.c")], exe, v,
+               extra=("-fsanitize-recover=address",))
+    env = dict(os.environ, VERIF_SCRATCH=ctx.scratch, ASAN_OPTIONS="detect_leaks=0:halt_on_error=0")
     if trace:
         env["VERIF_TRACE"] = "1"
     text = "".join(c.text() for c in cases)
     rc, lines, err = ctx.run_lines([exe], text, timeout=3000, env=env)
     runs = mpitrace.parse_runs(lines)
+    # classify sanitizer reports: anything that is not the simulator's own cleanup counts as a crash of the run
+    reports = err.split("==ERROR: AddressSanitizer")[1:]
+    foreign = [r for r in reports if not re.search(r"#0 0x[0-9a-f]+ in msg_free [^\n]*simmpi\.c[^\n]*\n\s*#1 0x[0-9a-f]+ in cleanup [^\n]*simmpi\.c", r)]
+    if reports:
+        ctx.notes["simmpi_cleanup_reports"] = ctx.notes.get("simmpi_cleanup_reports", 0) + (len(reports) - len(foreign))
+    if foreign and rc == 0:
+        rc = 1
+        err = "==ERROR: AddressSanitizer" + foreign[0]
     return rc, runs, err
 
 
